@@ -2,6 +2,7 @@
     Writers emit every batch once, in order, as well-formed FASTA/FASTQ/JSON/CSV — for every list of
     chunks (empty chunks included) and EVERY arrival permutation of the numbered chunks. *)
 From Coq Require Import List Arith NArith Bool Permutation.
+From OBI.C04 Require Import Json Csv.
 From OBI.Common Require Import Reseq.
 From OBI.C04 Require Import Model Proofs.
 Import ListNotations.
@@ -50,6 +51,80 @@ Theorem C04_csv_no_batch : forall header arr, Permutation arr (numbered (csv_chu
   csv_writer arr = mkdev [] 1.
 Proof. exact csv_empty_spec. Qed.
 
+(** ================= round 2: over RECORDS (FormatJSONBatch / FormatCVSBatch inside the model) *)
+
+(** JSON.  [batches]: the serialised records (JSONRecord) of every batch; the chunks are
+    FormatJSONBatch of them (two blanks before a record, comma-newline between the records of one batch,
+    nothing for an empty batch).  If every record is a serialised JSON object (executable recogniser
+    [json_object] of Json.v) then, for EVERY arrival permutation, the sink receives exactly
+    open-bracket, the indented records of all batches in order separated by comma-newline, close-bracket,
+    then one Close; that text is ONE grammatical JSON text ([json_text], RFC 8259 automaton) and it is an
+    array whose elements are, in order, exactly the records ([json_array_objects]). *)
+Theorem C04_json_is_array : forall (batches : list (list (list N))) arr,
+  Forall (fun r => json_object r = true) (concat batches) ->
+  Permutation arr (numbered (json_chunks batches)) ->
+  json_writer arr = mkdev (json_records_expected (concat batches)) 1 /\
+  json_text (got (json_writer arr)) = true /\
+  json_array_objects (got (json_writer arr)) = Some (concat batches).
+Proof. exact json_records_spec. Qed.
+(** the two grammar facts on their own: a framed list of objects is a JSON text / an array of them *)
+Theorem C04_framed_objects_are_json : forall rs, Forall (fun r => json_object r = true) rs ->
+  json_text (json_records_expected rs) = true.
+Proof. exact JsonProofs.array_text_valid. Qed.
+Theorem C04_framed_objects_elements : forall rs, Forall (fun r => json_object r = true) rs ->
+  json_array_objects (json_records_expected rs) = Some rs.
+Proof. exact JsonProofs.array_text_elements. Qed.
+(** a serialised object is recognised as exactly one value in every context (the recogniser is a
+    pushdown automaton: what is below the top of its stack is never looked at) *)
+Theorem C04_object_in_any_context : forall r sg, json_object r = true ->
+  Json.run (MV, sg) r = Some (MAfter, sg) /\ Json.run (MVE, sg) r = Some (MAfter, sg).
+Proof. exact JsonProofs.object_run. Qed.
+(** FormatJSONBatch and the writer's separators compose: one separator between consecutive records,
+    wherever the batch boundaries and the empty batches are *)
+Theorem C04_json_batches_flatten : forall batches,
+  join json_sep (filter nonempty (json_chunks batches)) = jjoin jsep (map indent (concat batches)).
+Proof. exact join_filter_chunks. Qed.
+
+(** CSV.  [hdr]: the fields of CSVHeader; [batches]: the fields of CSVRecord of every record of every
+    batch; the chunks are FormatCVSBatch of them (encoding/csv line syntax, the header line inside the
+    batch numbered 0).  For EVERY arrival permutation the sink receives the header line followed by
+    one line per record in order (nothing at all when there is no batch), then one Close. *)
+Theorem C04_csv_rows : forall hdr (batches : list (list (list field))) arr,
+  Permutation arr (numbered (csv_record_chunks hdr batches)) ->
+  csv_writer arr = mkdev (match batches with [] => [] | _ => csv_line hdr ++ concat (map csv_line (concat batches)) end) 1.
+Proof. exact csv_records_spec. Qed.
+(** ... and these lines are unambiguous: a reader of the same line syntax gets the header and the
+    rows back, in order (rows with at least one field) *)
+Theorem C04_csv_rows_decodable : forall hdr (batches : list (list (list field))) arr,
+  batches <> [] -> hdr <> [] -> Forall (fun r => r <> []) (concat batches) ->
+  Permutation arr (numbered (csv_record_chunks hdr batches)) ->
+  csv_records (got (csv_writer arr)) = Some (hdr :: concat batches).
+Proof. exact csv_rows_decodable. Qed.
+Theorem C04_csv_lines_roundtrip : forall rows, Forall (fun r => r <> []) rows ->
+  csv_records (concat (map csv_line rows)) = Some rows.
+Proof. exact CsvProofs.csv_roundtrip. Qed.
+
+(** completion order: an observer that has seen the END of the iterator returned by a (repaired)
+    writer finds the sink closed and complete; the unrepaired closing script guarantees nothing
+    (it ended the iterator BEFORE closing the chunk channel), and waiting for the writer before the
+    channel is closed would block. *)
+Theorem C04_iter_end_implies_sink_closed : forall l arr, Permutation arr (numbered l) ->
+  at_iter_end (fastx_writer arr) closer = Some (mkdev (concat l) 1) /\
+  at_iter_end (json_writer arr) closer = Some (mkdev (json_expected l) 1) /\
+  at_iter_end (csv_writer arr) closer = Some (mkdev (concat l) 1).
+Proof.
+  exact (fun l arr P => conj (iter_end_implies_closed_fastx l arr P)
+                       (conj (iter_end_implies_closed_json l arr P) (iter_end_implies_closed_fastx l arr P))).
+Qed.
+Theorem C04_iter_end_after_wait : forall pre s,
+  match fold_left cstep (pre ++ [AWaitWriter; AIterClose]) (Some s) with
+  | Some s' => seen s' = Some true | None => True end.
+Proof. exact iter_end_after_wait. Qed.
+Theorem C04_iter_end_orig_refuted : sees_closed closer_orig = Some false /\ forall d, at_iter_end d closer_orig = None.
+Proof. exact (conj closer_orig_sees_open iter_end_orig_nothing). Qed.
+Theorem C04_wait_before_channel_close_blocks : sees_closed [AWaitWriter; AChanClose; AIterClose] = None.
+Proof. exact wait_before_close_blocks. Qed.
+
 (** hypotheses are satisfiable by a non-identity arrival with an empty chunk, and the writers compute *)
 Example C04_nonvacuous :
   let l := [[49%N]; []; [50%N; 51%N]] in
@@ -63,6 +138,18 @@ Proof.
   apply Permutation_rev.
 Qed.
 
+(** the record-level hypotheses are satisfiable: two batches of serialised objects (one nested, with
+    an escaped quote), non-identity arrival; a CSV field that needs quotes *)
+Example C04_records_nonvacuous :
+  let r1 := [123; 34; 97; 34; 58; 123; 34; 98; 92; 34; 34; 58; 91; 49; 44; 50; 93; 125; 125]%N in   (* an object holding an object holding an array; one key has an escaped double quote *)
+  let r2 := [123; 125]%N in
+  let batches := [[r1]; []; [r2; r1]] in
+  Forall (fun r => json_object r = true) (concat batches) /\
+  json_array_objects (json_records_expected (concat batches)) = Some [r1; r2; r1] /\
+  json_text [91; 49; 44; 93]%N = false /\
+  csv_line [[97; 44; 98]; []; [32; 120]; [113; 34]]%N = [34; 97; 44; 98; 34; 44; 44; 34; 32; 120; 34; 44; 34; 113; 34; 34; 34; 10]%N.
+Proof. cbv zeta. split; [repeat constructor|]. vm_compute. auto. Qed.
+
 Print Assumptions C04_writer_loop_any_permutation.
 Print Assumptions C04_every_batch_once_in_order.
 Print Assumptions C04_fastx_bytes.
@@ -72,3 +159,15 @@ Print Assumptions C04_json_orig_refuted_drained_chunk.
 Print Assumptions C04_json_orig_refuted_empty_batch.
 Print Assumptions C04_csv_shape.
 Print Assumptions C04_csv_no_batch.
+Print Assumptions C04_json_is_array.
+Print Assumptions C04_framed_objects_are_json.
+Print Assumptions C04_framed_objects_elements.
+Print Assumptions C04_object_in_any_context.
+Print Assumptions C04_json_batches_flatten.
+Print Assumptions C04_csv_rows.
+Print Assumptions C04_csv_rows_decodable.
+Print Assumptions C04_csv_lines_roundtrip.
+Print Assumptions C04_iter_end_implies_sink_closed.
+Print Assumptions C04_iter_end_after_wait.
+Print Assumptions C04_iter_end_orig_refuted.
+Print Assumptions C04_wait_before_channel_close_blocks.
